@@ -1050,6 +1050,14 @@ class Crate:
         for k in table:
             f, n = k.rsplit("::", 1)
             known[f].add(n)
+        # (a name that several functions of a file share — the methods of a trait implemented for several types — is not recorded
+        # in the table, but it is not a new name either)
+        namecount = defaultdict(int)
+        for f_, bs_ in by_file.items():
+            for b_ in bs_:
+                namecount[(f_, b_.name)] += 1
+        def fresh(b, f):
+            return b.name not in known[f] and namecount[(b.file, b.name)] == 1
         ambiguous = []
         def take(n, b):
             self.by_name[n].append(b)
@@ -1061,15 +1069,15 @@ class Crate:
             bs = by_file.get(f)
             if not bs or any(b.name == n for b in bs):
                 continue
-            cands = [b for b in bs if b.name not in known[f] and [b.local_ty(l) for l in range(1, b.argc + 1)] + ["->", b.local_ty(0)] == sig]
+            cands = [b for b in bs if fresh(b, f) and [b.local_ty(l) for l in range(1, b.argc + 1)] + ["->", b.local_ty(0)] == sig]
             def same_sig_unordered(b):
                 return sorted(b.local_ty(l) for l in range(1, b.argc + 1)) == sorted(sig[:-2]) and b.local_ty(0) == sig[-1]
             if not cands:
-                cands = [b for b in bs if b.name not in known[f] and same_sig_unordered(b)]
+                cands = [b for b in bs if fresh(b, f) and same_sig_unordered(b)]
             if not cands:
                 # moved to another file of the crate (free function -> method of the type it works on, new submodule ..)
                 allknown = set().union(*known.values()) if known else set()
-                cands = [b for bs2 in by_file.values() for b in bs2 if b.name not in allknown and same_sig_unordered(b)]
+                cands = [b for bs2 in by_file.values() for b in bs2 if b.name not in allknown and namecount[(b.file, b.name)] == 1 and same_sig_unordered(b)]
             if not cands:
                 # free function -> method of a private context struct that bundles the e-graph reference
                 # (`fn ematch_impl(p, st, i, eg)` -> `Matcher { eg }.match_pattern(p, st, i)`): the `&EGraph` parameter is
@@ -1084,12 +1092,22 @@ class Crate:
                         a = self.adts.get(path)
                         return a is not None and any("egraph::EGraph<" in f["ty"] for v in a["variants"] for f in v["fields"])
                     for b in bs:
-                        if b.name in known[f]:
+                        if not fresh(b, f):
                             continue
                         tys = [b.local_ty(l) for l in range(1, b.argc + 1)]
                         cx = [t for t in tys if ctx_struct(t)]
                         if len(cx) == 1 and sorted(t for t in tys if t is not cx[0]) == rest and b.local_ty(0) == sig[-1]:
                             cands.append(b)
+            if not cands and sig[-1] == "()":
+                # an out-parameter turned into a return value: `fn f(s: &mut T, ..)` -> `fn f(s: T, ..) -> T`
+                for b in bs:
+                    if not fresh(b, f) or b.argc != len(sig) - 2:
+                        continue
+                    tys = [b.local_ty(l) for l in range(1, b.argc + 1)]
+                    diff = [i for i in range(len(tys)) if tys[i] != sig[i]]
+                    if len(diff) == 1 and sig[diff[0]] == "&mut " + tys[diff[0]] and b.local_ty(0) == tys[diff[0]]:
+                        b.out_param_as_return = diff[0] + 1
+                        cands.append(b)
             if len(cands) == 1:
                 take(n, cands[0])
             elif len(cands) > 1:
